@@ -17,6 +17,9 @@
 #include <fstream>
 #include <iostream>
 #include <unistd.h>
+#include <sys/stat.h>
+#define protected public
+#define private public
 #include "config.h"
 #include "cryptoki.h"
 #include "ByteString.h"
@@ -26,11 +29,16 @@
 #include "RFC4880.h"
 #include "AESKey.h"
 #include "odd.h"
-#define protected public
-#define private public
 #include "SoftHSM.h"
 #undef protected
 #undef private
+
+// `mxseq`: application mutex callbacks that only count
+static long mxLive = 0;
+static CK_RV cntCreate(CK_VOID_PTR_PTR pp) { *pp = malloc(8); mxLive++; return CKR_OK; }
+static CK_RV cntDestroy(CK_VOID_PTR p) { free(p); mxLive--; return CKR_OK; }
+static CK_RV cntLock(CK_VOID_PTR) { return CKR_OK; }
+static CK_RV cntUnlock(CK_VOID_PTR) { return CKR_OK; }
 
 static std::string hexs(const ByteString& b) {
 	if (b.size() == 0) return ".";
@@ -92,6 +100,28 @@ int main(int argc, char** argv) {
 			int um = Configuration::i()->getInt("objectstore.umask", -12345); o << " objectstore.umask=" << (um == -12345 ? std::string("-") : std::to_string(um));
 			const char* bkeys[] = { "slots.removable", "library.reset_on_fork" };
 			for (const char* k : bkeys) { bool a = Configuration::i()->getBool(k, false), b = Configuration::i()->getBool(k, true); o << " " << k << "=" << (a != b ? "-" : (a ? "1" : "0")); }
+			out = o.str();
+		}
+		else if (fn == "mxseq" && w.size() == 2) {
+			// a sequence of C_Initialize calls (n: no locking, o: CKF_OS_LOCKING_OK, a: application callbacks; upper case: the same, failing because the configuration file
+			// is missing) and C_Finalize (f): after every C_Initialize its return code and whether the mutex factory is switched ON
+			std::string good = scratch + "/mx.conf", td = scratch + "/mx-tokens";
+			mkdir(td.c_str(), 0700);
+			{ FILE* f = fopen(good.c_str(), "wb"); fprintf(f, "directories.tokendir = %s\nobjectstore.backend = file\nlog.level = ERROR\n", td.c_str()); fclose(f); }
+			std::ostringstream o; bool first = true; bool inited = false;
+			for (char c : w[1]) {
+				if (!first) o << ","; first = false;
+				if (c == 'f') { CK_RV rv = C_Finalize(NULL_PTR); if (rv == CKR_OK) inited = false; o << "f" << rv; continue; }
+				bool fail = (c == 'N' || c == 'O' || c == 'A'); char k = (char) tolower(c);
+				setenv("SOFTHSM2_CONF", fail ? (scratch + "/no-such-file.conf").c_str() : good.c_str(), 1);
+				CK_C_INITIALIZE_ARGS a; memset(&a, 0, sizeof a);
+				if (k == 'o') a.flags = CKF_OS_LOCKING_OK;
+				if (k == 'a') { a.CreateMutex = cntCreate; a.DestroyMutex = cntDestroy; a.LockMutex = cntLock; a.UnlockMutex = cntUnlock; }
+				CK_RV rv = C_Initialize(k == 'n' ? NULL_PTR : &a);
+				if (rv == CKR_OK) inited = true;
+				o << rv << ":" << (MutexFactory::i()->enabled ? 1 : 0);
+			}
+			if (inited) C_Finalize(NULL_PTR);
 			out = o.str();
 		}
 		else out = "?";
